@@ -31,57 +31,68 @@ prop('C01', level='model_checking',
      text='Round-trip is cut at the stage boundaries: each codec stage pair (RLE1 collect/emit, MTF/zero-run, table build/decode) is checked on '
           'the real functions at small bounded sizes (labelled bounded) and the block-ordering glue between stages is proved with contracts.',
      note=PCHAIN + 'Whole-pipeline inverse for unbounded input is not one contract; blocks beyond the bounds, divbwt and transmit/retrieve bit agreement are undecided.',
-     technique='CBMC contracts on the ordering glue + bounded CBMC checks of real codec stage functions', design_ref='§4 C01')
+     technique='CBMC contracts on the ordering glue + bounded CBMC checks of real codec stage functions', design_ref='§4 C01',
+     undecided=['whole-pipeline inverse for blocks beyond the stage bounds', 'divbwt() (block sorting) and do_mtf(): no obligation built', 'transmit()/retrieve() bit-level agreement', 'generate_prefix_code() clustering'])
 prop('C02', level='proof',
      text='Stream framing (header digit, trailer bytes, combined CRC recurrence, block order) is proved on write_header/write_trailer/do_reorder/combine_crc; '
           'per-block field facts (dummy table Kraft sum for every alphabet size, padding, selector bound) as lemmas; capacity via bounded collect steps.',
      note=PCHAIN + 'libbz2 is not linked into the verifier; per-block table completeness for multi-table blocks only bounded.',
-     technique='CBMC function contracts + exhaustive lemma harnesses on the real encoder code', design_ref='§4 C02')
+     technique='CBMC function contracts + exhaustive lemma harnesses on the real encoder code', design_ref='§4 C02',
+     undecided=['libbz2 decoding of the produced stream (needs C01 in full)', 'completeness and 1..20 range of multi-table codes (assign_codes/package_merge: symbolic run exhausts 16 GB)', 'bwt_idx < nblock (divbwt not covered)', 'transmit() bit layout beyond the first-length section'])
 prop('C03', level='proof',
      text='Determinism is decomposed into scheduler-free contracts: xread always fills a chunk, xwrite writes every byte in order, chunk n gets position (n,0), '
           'work blocks are chained by next, do_reorder only emits the block whose position equals order.',
      note=PCHAIN + 'Sequential determinism of encode()/transmit() given no uninitialised reads is assumed; single reader/writer thread assumed from init_io.',
-     technique='CBMC function + loop contracts with POSIX stubs returning every allowed outcome; monitor-invariant harnesses', design_ref='§4 C03')
+     technique='CBMC function + loop contracts with POSIX stubs returning every allowed outcome; monitor-invariant harnesses', design_ref='§4 C03',
+     undecided=['sequential determinism of encode()/transmit() (assumed: no uninitialised reads)', 'single reader / single writer thread (from init_io, not an obligation)'])
 prop('C04', level='model_checking',
      text='One-step conformance of the real collect() against the greedy packing rule written from the property, from every representable (capacity, fill, run-state) '
           'for small capacities with symbolic input bytes (bounded); encode() final flush and the chunking glue are proved.',
      note=PCHAIN + 'collect() is a goto-built state machine that admits no loop contracts; composition of steps beyond the bound is a paper induction.',
-     technique='bounded CBMC checks of real collect() from enumerated start states + contracts on the glue', design_ref='§4 C04')
+     technique='bounded CBMC checks of real collect() from enumerated start states + contracts on the glue', design_ref='§4 C04',
+     undecided=['composition of n one-byte steps into one n-byte call beyond 3 bytes (paper induction)', 'encode() final flush of a pending run (not extracted yet)'])
 prop('C05', level='proof',
      text='parse() is proved against a reference stream automaton (unbounded input); do_parse/do_reorder error routing, size and CRC checks are proved; the code-length '
           'delta tables are checked against strict step-by-step decoding as an exhaustive lemma; make_tree Kraft check by complete unwinding; entropy decoding bounded.',
      note=PCHAIN + 'retrieve()/emit() byte-exactness beyond the bounds is undecided.',
-     technique='CBMC function/loop contracts with ghost reference automaton + exhaustive table lemmas', design_ref='§4 C05')
-prop('C06', level='proof',
+     technique='CBMC function/loop contracts with ghost reference automaton + exhaustive table lemmas', design_ref='§4 C05',
+     undecided=['retrieve() prefix decoding and run expansion beyond the end-of-block section', 'make_tree() table construction after the Kraft test; Kraft test for alphabets > 12', 'decode() (inverse BWT): no obligation', 'mtf_one(): no discharged obligation (SAT and z3 time out)', 'ERR_OVERFLOW check at real block sizes'])
+prop('C06', level='model_checking',
      text='Accepting direction of the parse() contract (every legal header/trailer sequence at any bit offset), make_tree on every complete length vector, '
           'mtf_one fast path on every layout, selectors clamp; remaining decoding stages bounded.',
      note=PCHAIN + 'mtf_one general path, decode(), emit(), retrieve() only bounded.',
-     technique='CBMC contracts + complete-unwind harnesses + bounded stage checks', design_ref='§4 C06')
+     technique='CBMC contracts + complete-unwind harnesses + bounded stage checks', design_ref='§4 C06',
+     undecided=['retrieve() decoding agreement with the canonical code (start/base/count/perm)', 'mtf_one() both paths', 'decode() incl. randomised blocks', 'full-size behaviours (primary index 899999, 900000-byte blocks)'])
 prop('C07', level='proof',
      text='Proves the path from every detected error to the process outcome: every error status reaches a fail* reporter, reporters never return, bailout on the '
           'main thread cleans up before _exit(1), other threads promote and signal; detection itself is C05, memory safety C08.',
      note=PCHAIN + 'never hangs is liveness and is not decided; stdio/pthread/signal calls are assumed contracts.',
-     technique='CBMC contracts with _Noreturn reporter stubs recording ghost state', design_ref='§4 C07')
+     technique='CBMC contracts with _Noreturn reporter stubs recording ghost state', design_ref='§4 C07',
+     undecided=['"never hangs" (liveness)', 'that every damaged input is detected (C05)'])
 prop('C08', level='proof',
      text='Every harness runs with bounds, pointer, overflow, shift and division checks on, so the functions under contract are free of UB under their stated '
           'preconditions; bounded functions are listed as bounded.',
      note=PCHAIN + 'not a whole-program claim: divbwt at real block sizes, retrieve fast path on full streams and cross-thread lifetime are undecided.',
-     technique='CBMC built-in safety checks on all contract harnesses', design_ref='§4 C08')
+     technique='CBMC built-in safety checks on all contract harnesses', design_ref='§4 C08',
+     undecided=['divbwt() sort stacks and recursion budget', 'retrieve() fast path (32-word precondition) and tt_limit check at real sizes', 'mtf_one() rebuild path', 'do_mtf(), generate_prefix_code() EM loops, transmit()', 'use-after-free across threads'])
 prop('C09', level='proof',
      text='bits_init/attach/detach position arithmetic proved (absolute bit position preserved, pos injective), multi-buffer emission ordering proved, '
           'set_memory_constraints proved; emit() split invariance bounded.',
      note=PCHAIN + 'retrieve() NEED suspend/resume relational property is undecided (coroutine structure).',
-     technique='CBMC contracts on expand.c glue + bounded emit split check', design_ref='§4 C09')
+     technique='CBMC contracts on expand.c glue + bounded emit split check', design_ref='§4 C09',
+     undecided=['retrieve() NEED() suspend/resume at arbitrary word boundaries (coroutine)', 'emit() split invariance is per call; the induction over calls is a paper step', 'attach()/detach() with more than two queued input blocks'])
 prop('C10', level='proof',
      text='Safety statement proved on do_parse/do_reorder/do_scan/do_retrieve: a buffer reaches the sink only if its base equals a position at which the sequential '
           'parser accepted a header, in parser order; everything else is discarded.',
      note=PCHAIN + 'sequential determinism of retrieve from equal bit positions assumed.',
-     technique='CBMC monitor-invariant contracts on expand.c task bodies', design_ref='§4 C10')
+     technique='CBMC monitor-invariant contracts on expand.c task bodies', design_ref='§4 C10',
+     undecided=['sequential determinism of retrieve() from equal bit positions (assumed)', 'order_q / unord_q occupancy (assumed where the code asserts it)'])
 prop('C11', level='proof',
      text='Safety half: monitor invariants (unit/slot conservation, queue occupancy below capacity, order) proved per task body and callback for every '
           'interleaving via havoc-at-lock; heap/deque primitives proved. Termination/deadlock-freedom NOT decided.',
      note=PCHAIN + 'liveness is outside contract-based verification; stated undecided.',
-     technique='Owicki-Gries style monitor invariants as CBMC contracts on the real task bodies', design_ref='§4 C11')
+     technique='Owicki-Gries style monitor invariants as CBMC contracts on the real task bodies', design_ref='§4 C11',
+     undecided=['termination / deadlock-freedom (liveness)', 'order_q and unord_q occupancy bounds (assumed where the code asserts them)', 'heap order of the priority queues (up_heap/down_heap bodies): no obligation; callers use the stub contract "old head handed out at root[size]"'])
 prop('C12', level='proof',
      text='Lock discipline for every object of static storage duration: (1) accessor macros woven after each shared variable assert at every textual use (including uses inside the queue macros) '
           'that the guarding mutex is held or no other thread of the run exists, in all task bodies, callbacks and thread procedures of process.c, compress.c and expand.c; '
@@ -98,30 +109,35 @@ prop('C14', level='proof',
           'paper argument; scan() word loop only bounded (its loop shares a cycle with goto again, CBMC loop contracts cannot attach).',
      technique='CBMC lemma harnesses over scantab.h (exhaustive, loop-free after constant unwinding) + bounded check of scan()',
      design_ref='§4 C14',
-     undecided=['scan() beyond the stated window bound'],
+     undecided=['scan() beyond the stated window bound', 'the unwinding assertion of the goto-again cycle is replaced by the woven no-second-backtrack assertion'],
      assumptions=['induction principle over bit histories (paper step)'])
 prop('C15', level='proof',
      text='parse() contract: hd->crc is bit-for-bit the stored field and the stream check compares the stored trailer with the combination; custody of the header '
           'through order_q and the comparison in do_reorder are proved.',
      note=PCHAIN + 'emit() computing the CRC of the emitted bytes is bounded.',
-     technique='CBMC contracts (parse reference automaton, do_reorder monitor harness)', design_ref='§4 C15')
+     technique='CBMC contracts (parse reference automaton, do_reorder monitor harness)', design_ref='§4 C15',
+     undecided=['emit() CRC per call only (induction over calls is a paper step)', 'that retrieve()/decode() deliver the bytes the CRC is computed over (C05 residue)'])
 prop('C16', level='proof',
      text='Ghost file-system state: opathn != NULL iff a partial output exists; input removed only after output closed complete; bailout/halt/cleanup ordering; '
           'every syscall stub returns every POSIX outcome so each call position is a fault point.',
      note=PCHAIN + 'signal delivery assumed atomic w.r.t. ghost state; operand loop unrolled for 2 operands.',
-     technique='CBMC contracts over main.c/signals.c with POSIX stubs and ghost file-system state', design_ref='§4 C16')
-prop('C17', level='proof',
+     technique='CBMC contracts over main.c/signals.c with POSIX stubs and ghost file-system state', design_ref='§4 C16',
+     undecided=['signal delivery inside libc calls (assumed atomic w.r.t. the ghost file-system state)', 'operand names longer than the bound (2 characters in the loop harness, 7 in the per-function harnesses)'])
+prop('C17', level='model_checking',
      text='input_init admission rules, suffix_xform rules (bounded name length), output_init O_EXCL/mode, output_regf_uninit metadata order, removal rule, exit status.',
      note=PCHAIN + 'string lengths bounded; POSIX O_EXCL semantics assumed.',
-     technique='CBMC contracts over main.c with POSIX stubs', design_ref='§4 C17')
+     technique='CBMC contracts over main.c with POSIX stubs', design_ref='§4 C17',
+     undecided=['operand names longer than 7 characters', 'POSIX O_EXCL semantics (assumed)'])
 prop('C18', level='proof',
      text='Per-run reset: primary_thread prologue + init() give canonical scheduler state from any terminal state; terminal predicate follows from invariant; main loop frame.',
-     note=PCHAIN, technique='CBMC contracts on init()/primary_thread/main loop', design_ref='§4 C18')
+     note=PCHAIN, technique='CBMC contracts on init()/primary_thread/main loop', design_ref='§4 C18',
+     undecided=['uninit() assertions follow from the terminal predicate (lemma) but uninit() bodies are not run', 'equality of outputs combined vs separate is argued from the per-operand reset, not checked relationally'])
 prop('C19', level='proof',
      text='work() sniffing: non-header input with -cdf to stdout writes exactly the bytes read then copies; header input goes to expansion; copy pipeline forwards each '
           'buffer once in order.',
      note=PCHAIN + 'termination of the copy is liveness, undecided.',
-     technique='CBMC contracts on work()/copy callbacks/xread/xwrite', design_ref='§4 C19')
+     technique='CBMC contracts on work()/copy callbacks/xread/xwrite', design_ref='§4 C19',
+     undecided=['termination of the copy (liveness)', 'copy() body itself (set-up of the pseudo process): no obligation'])
 prop('C20', level='model_checking',
      text='assign_codes/package_merge on the real code for small alphabets with symbolic frequencies compared with an enumerated optimum (bounded); single-table dummy '
           'code complete for all alphabet sizes (lemma).',
@@ -131,11 +147,13 @@ prop('C21', level='proof',
      text='xread/xwrite: a -1 from read/write at any call position reaches failfx and never returns normally; reporter suppresses message only for EPIPE/EFBIG; '
           'bailout/promote signal ordering; main close(stdout) failure fatal.',
      note=PCHAIN + 'promptness/never hangs is liveness, undecided.',
-     technique='CBMC loop contracts with POSIX stubs', design_ref='§4 C21')
+     technique='CBMC loop contracts with POSIX stubs', design_ref='§4 C21',
+     undecided=['"promptly" / "never hangs" (liveness)'])
 prop('C22', level='model_checking',
      text='opts_setup against an executable model of the documented rules for bounded token lists (symbolic choice among documented spellings); helper contracts proved.',
      note=PCHAIN + 'token lists longer than the bound undecided; strtok/getenv/strcmp loop stubs trusted.',
-     technique='bounded CBMC check of real opts_setup against documented-rule model', design_ref='§4 C22')
+     technique='bounded CBMC check of real opts_setup against documented-rule model', design_ref='§4 C22',
+     undecided=['token lists longer than 5 / several tokens per environment variable', '-n/-m numeric arguments, -h/-V', 'real strtok()/getenv() (stubs)'])
 
 
 
@@ -296,6 +314,12 @@ def all_obligations():
              what='encode(): the packed-nibble move-to-front step, for every list (all 720 permutations) and this selected table: value sent = position of the table, list updated by move-to-front; '
                   '__builtin_ctz argument non-zero, no undefined shift',
              functions=['encode (selector MTF section)'], flags=['--unwind', '8', '--unwinding-assertions'], expect=['selector MTF: the value sent is the position', 'selector MTF: the table moves to the front'], assumed=XS, replayable=True))
+    for nb, st in ((4, 4), (5, 4), (5, 258), (4, 100), (5, 5), (3, 0), (6, 3), (6, 0), (2, 2)):
+        A(Ob(name=f'encode.final_flush.n{nb}s{st}', props=['C04', 'C02', 'C01', 'C08'], kind='bounded', harness='h_encode_sections.c', entry='h_final_flush', defines={'FF_NB': str(nb), 'FF_ST': str(st)},
+             bound=f'capacity 6, {nb} bytes in the block, saved run state {st} (concrete: both index the encoder object); block contents and in-use map symbolic',
+             what='encode(): a run of >= 4 still pending when the block is closed gets its count byte (length - 4) appended and marked in use; nothing else changes; the block stays within capacity',
+             functions=['encode (final-flush section)'], flags=['--unwind', '260', '--unwinding-assertions'], expect=['final flush: the block never exceeds'],
+             assumed=XS[:1] + ['saved-state facts established by the collect() instances: 0 <= rle_state < 259; rle_state >= 4 implies nblock < capacity'], replayable=True))
     A(Ob(name='encode.first_length', props=['C02'], kind='lemma', harness='h_encode_sections.c', entry='h_first_length',
          what='transmit(): for every first code length 1..20 and padding 0..3 the 5-bit start value of the first table stays within 1..20 and lies exactly tree_pad steps from the real length',
          functions=['transmit (first-length section)'], flags=['--unwind', '8', '--unwinding-assertions'], expect=['first table: the 5-bit start value stays within'], assumed=XS, replayable=True))
@@ -384,6 +408,10 @@ def all_obligations():
              gi_flags=(['--restrict-function-pointer', 'worker_thread_proc.function_pointer_call.1/run0,run1,run2'] if fn == 'worker' else [])))
     # (worker: next_task->run() would otherwise be resolved by type to every void(void) function whose address is taken, including the thread procedures themselves)
 
+    A(Ob(name='process.heap', props=['C11', 'C08', 'C03'], kind='bounded', harness='h_proc.c', entry='h_heap', bound='priority queues of at most 7 elements (positions symbolic)',
+         what='up_heap()/down_heap(): the queue stays a min-heap by position, holds exactly the same elements (plus the new one / minus the head), dequeue hands out the old head at root[size], '
+              'nothing outside root[0..size] is touched -- the stub contract the monitor harnesses rely on',
+         functions=['up_heap', 'down_heap'], flags=['--unwind', '10', '--unwinding-assertions'], expect=['down_heap: the old head', 'up_heap: heap order holds'], replayable=True))
     # ---------------- compress.c scheduler monitor
     MON = ['monitor model: sched_lock() = havoc of all scheduler-protected state + assume I_c; sched_unlock()/task exit = assert I_c with the resources the SPEC '
            'declares held at that point (Owicki-Gries with ghost ownership counters)',
